@@ -129,6 +129,11 @@ def finish(ctx: Ctx, level_text: str, trusted: list[str], assumptions: list[str]
             seen.add(o.key)
             i += 1
             rp = vdir / f"{ctx.pid}-{i}.json"
+            if not write_evidence:
+                # scratch runs (self-validation, seed checks) must not overwrite the replay files of the real tree
+                print(f"{o.loc}: [{ctx.pid}-{o.rule}] {o.instance}: {o.fact}", file=out)
+                print(f"VIOLATION property={ctx.pid} replay=(scratch run, no replay file)", file=out)
+                continue
             rp.write_text(
                 json.dumps(
                     {"property": ctx.pid, "rule": o.rule, "instance": o.instance, "fact": o.fact, "loc": o.loc, "key": o.key,
